@@ -324,6 +324,101 @@ def server_start_compression(u: U):
                 "a body announced as Content-Encoding: X is compressed with X, and the stale Content-Length is dropped")
 
 
+PAYLOAD = "aiohttp.payload"
+FN_IOW = "payload:IOBasePayload.write_with_length"
+
+
+@unit("C02", "payload.file_body_complete", functions=[f"{PAYLOAD}:IOBasePayload.write_with_length",
+                                                      f"{PAYLOAD}:IOBasePayload._should_stop_writing"])
+def payload_file_body(u: U):
+    """IOBasePayload.write_with_length (file, pipe, socket-file and text-file bodies of requests and responses): every
+    chunk read is written - whole, or cut at the announced length - in order, and the copy ends only at end of file
+    (an empty read), when the known size has been written or when the announced length is used up.  A short read is not
+    end of file: pipes, sockets and raw streams return what they have."""
+    from pyvc import blen, mk_int, tint
+    from pyvc.values import SBytes
+
+    cl = None if u.choose(2, "content_length_given") == 0 else u.int("content_length", 0)
+    size = None if u.choose(2, "size_known") == 0 else u.int("size", 0)
+    reads, writes = [], []
+
+    def read_chunk(n):
+        b = u.bytes("chunk_read")
+        u.assume(blen(b) <= n)  # io.RawIOBase.read(n): at most n bytes, b'' only at end of file
+        reads.append(b)
+        return b
+
+    def read_and_available_len(self, remaining):
+        return size, read_chunk(65536)
+
+    def read(self, n):
+        return read_chunk(n)
+
+    class _Loop:
+        def run_in_executor(self, ex, fn, *args):
+            return SAwait(result=lambda: fn(*args), name="executor.read")
+
+    class _Asyncio:
+        @staticmethod
+        def get_running_loop():
+            return _Loop()
+
+    class _Writer:
+        def write(self, data):
+            writes.append(data)
+            return SAwait(name="writer.write")
+
+    p = u.obj("IOBasePayload", {}, {"_read_and_available_len": read_and_available_len, "_read": read},
+              shared=False, real=(PAYLOAD, "IOBasePayload"))
+    f = u.load(PAYLOAD, "IOBasePayload.write_with_length", globals={"asyncio": _Asyncio})
+    head = {}
+
+    def stop_spec(avail, written, remaining):
+        return Or(And(avail is not None, written >= avail) if avail is not None else False,
+                  (remaining <= 0) if remaining is not None else False)
+
+    def inv(L):
+        items = [("written_nonneg", L["total_written_len"] >= 0)]
+        if cl is not None:
+            # what is left of the announced length: the announced length minus everything handed on so far
+            items.append(("remaining_tracks_written", L["remaining_content_len"] == cl - L["total_written_len"]))
+            items.append(("remaining_nonneg", L["remaining_content_len"] >= 0))
+        return items
+
+    def at_head(L):
+        head.update(chunk=L["chunk"], nwrites=len(writes), remaining=L.get("remaining_content_len"))
+
+    def at_back(L):
+        ch = SBytes.of(head["chunk"])
+        new = writes[head["nwrites"]:]
+        n = blen(ch)
+        want = n if cl is None else mk_int(z3.If(tint(n) < tint(head["remaining"]), tint(n), tint(head["remaining"])))
+        u.check("C02.payload.chunk_written_once_in_order",
+                len(new) == 1 and tbool_(SBytes.of(new[0]).prov_eq(ch.slice(0, want))) if len(new) == 1 else False,
+                "each chunk read from the file is handed to the writer exactly once, whole or cut at what is left of "
+                "the announced length")
+
+    def tbool_(x):
+        return x
+
+    u.loop(FN_IOW, 0, inv=inv, at_head=at_head, at_back=at_back,
+           types={"chunk": lambda nm: SBytes.fresh(nm, register=False),
+                  "remaining_content_len": (lambda nm: None) if cl is None else (lambda nm: u.int(nm))})
+    out = u.call(f, p, _Writer(), cl)
+    u.check("C02.payload.write.total", out.ok, f"{out!r}")
+    if not out.ok:
+        return
+    L = u.last_locals.get(FN_IOW, {})
+    last = L.get("chunk")
+    at_eof = blen(last) == 0 if last is not None else False
+    u.check("C02.payload.file_body_complete",
+            Or(at_eof, stop_spec(L.get("available_len"), L.get("total_written_len"), L.get("remaining_content_len"))),
+            "the copy ends only at end of file (an empty read), or when the payload's known size / the announced "
+            "Content-Length has been written: a read shorter than the chunk size is not the end of a pipe or socket",
+            witness={"last_chunk_len": blen(last) if last is not None else None, "size": size, "content_length": cl,
+                     "written": L.get("total_written_len")})
+
+
 @unit("C02", "server.response_compression", functions=[f"{WRSP}:Response._do_start_compression"])
 def server_response_compression(u: U):
     """Response._do_start_compression for every body kind (none, bytes, Payload) x chunked x coding: total (a response
